@@ -1,4 +1,4 @@
-From TxV Require Import Core.Base Model.ScopeDefs Gen.SrcScope Model.Scope.
+From TxV Require Import Core.Base Model.ScopeDefs Gen.SrcScope Model.RrelSyntax Proofs.RrelSyntaxProofs Model.Scope.
 
 Lemma select_spec regs cls attr has_rrel : select regs cls attr has_rrel = spec regs cls attr has_rrel.
 Proof.
@@ -13,9 +13,26 @@ Qed.
 Lemma select_grammar_first regs cls attr : select regs cls attr true = FromGrammar.
 Proof. rewrite select_spec. reflexivity. Qed.
 
-Lemma registered_string_like_grammar parse t :
-  registered_provider parse (RString t) = grammar_provider (parse t).
-Proof. reflexivity. Qed.
+Lemma registered_string_like_grammar t e :
+  RrelSyntax.parse t = Some e -> registered_provider (RString t) = grammar_provider e.
+Proof. intro H. unfold registered_provider, grammar_provider. change string_registration_parsed_by_grammar_ctor with true. cbv iota. rewrite H. reflexivity. Qed.
+
+(* with C12's round trip: a string that lexes to the tokens of a well-formed grammar expression is that expression's provider *)
+Lemma registered_string_of_tokens t e :
+  wf_expr e -> lex (S (length t)) t = Some (t_expr e) -> registered_provider (RString t) = grammar_provider e.
+Proof.
+  intros Hwf Hlex. apply registered_string_like_grammar. unfold RrelSyntax.parse. rewrite Hlex. apply parse_toks_print. exact Hwf.
+Qed.
+
+(* a whole pass: every reference gets the provider documented for its own rule and attribute, whatever was
+   selected for the references before it *)
+Lemma select_pass_spec : forall regs refs memo,
+  select_pass regs refs memo = map (fun r => spec regs (fst (fst r)) (snd (fst r)) (snd r)) refs.
+Proof.
+  intros regs refs. induction refs as [|[[cls attr] rr] r IH]; intro memo; [reflexivity|].
+  cbn [select_pass map fst snd]. change selection_per_reference with true. cbv iota.
+  rewrite select_spec, IH. reflexivity.
+Qed.
 
 (* non-vacuity: a concrete configuration where the third key wins *)
 Example select_example :
